@@ -57,6 +57,10 @@ func (g *Gen) step(fn *ssa.Function, st *State, in ssa.Instruction) {
 	switch x := in.(type) {
 	case *ssa.Alloc:
 		el := x.Type().(*types.Pointer).Elem()
+		if isBufType(el) {
+			g.bufAlloc(st, x, true)
+			break
+		}
 		if at, ok := el.Underlying().(*types.Array); ok {
 			r := g.freshRef(st)
 			g.setHs(st, r, emptyAr)
@@ -138,12 +142,9 @@ func (g *Gen) step(fn *ssa.Function, st *State, in ssa.Instruction) {
 	case *ssa.MakeInterface:
 		inner := g.val(st, x.X)
 		// interface values are abstract identities; a non-nil concrete value makes a non-nil interface
+		// (an interface made from any typed value, even a nil pointer, is itself non-nil)
 		s := g.newSym("iface", "Int")
-		if _, isPtr := x.X.Type().Underlying().(*types.Pointer); !isPtr {
-			g.assume(st, fmt.Sprintf("(not (= %s 0))", s))
-		} else if inner.T != "" {
-			g.assume(st, fmt.Sprintf("(not (= %s 0))", s)) // typed nil pointers are still non-nil interfaces
-		}
+		g.assume(st, fmt.Sprintf("(not (= %s 0))", s))
 		r := Val{T: s, Kind: "err", Ty: x.Type()}
 		iv := inner
 		r.Elem = &iv
@@ -578,12 +579,7 @@ func (g *Gen) typeAssert(st *State, x *ssa.TypeAssert) {
 var typeIDs = map[string]int{}
 
 func (g *Gen) typeID(t types.Type) string {
-	s := t.String()
-	if id, ok := typeIDs[s]; ok {
-		return fmt.Sprint(id)
-	}
-	typeIDs[s] = len(typeIDs) + 1
-	return fmt.Sprint(typeIDs[s])
+	return strID(t.String()) // deterministic, so that specs can name a dynamic type: isdyn(x, "pkgpath.Type")
 }
 
 // payloadOf: the concrete value inside interface value a when its dynamic type is t.
@@ -814,8 +810,23 @@ func (g *Gen) bitop(st *State, x *ssa.BinOp, a, b Val) Val {
 		// x | c where the low bits of x covered by c are known zero is not derivable here; give bounds only
 	}
 	// unmodelled bit operation: result unconstrained within its type (sound over-approximation)
-	g.unmodelled["bitop "+x.Op.String()] = true
-	return g.symFor(x.Type(), "bitop", st)
+	g.unmodelled["bitop "+x.Op.String()+" (result only bounded, not computed)"] = true
+	r := g.symFor(x.Type(), "bitop", st)
+	nonneg := fmt.Sprintf("(and (>= %s 0) (>= %s 0))", a.T, b.T)
+	switch x.Op {
+	case token.AND:
+		g.assume(st, fmt.Sprintf("(=> %s (and (>= %s 0) (<= %s %s) (<= %s %s)))", nonneg, r.T, r.T, a.T, r.T, b.T))
+	case token.OR, token.XOR:
+		lower := "0"
+		if x.Op == token.OR {
+			lower = fmt.Sprintf("(ite (>= %s %s) %s %s)", a.T, b.T, a.T, b.T)
+		}
+		g.assume(st, fmt.Sprintf("(=> %s (and (>= %s %s) (<= %s (+ %s %s))))", nonneg, r.T, lower, r.T, a.T, b.T))
+		for _, k := range []string{"256", "65536", "4294967296"} {
+			g.assume(st, fmt.Sprintf("(=> (and %s (< %s %s) (< %s %s)) (< %s %s))", nonneg, a.T, k, b.T, k, r.T, k))
+		}
+	}
+	return r
 }
 
 func getPath(v Val, path []string) Val {
